@@ -281,7 +281,7 @@ fn pclose_then_second_action(liq_first: bool) -> impl Fn() {
         let what = format!("partial close by bob {} the liquidation", if liq_first { "after" } else { "before" });
         if let Some(p1) = r.w.position(0, BOB) {
             prove_d("C16/successful-action-stamps-the-position-with-the-current-block", Cond::from_bool(p1.block_number == r.w.height()), format!("{} stamp={} height={}", what, p1.block_number, r.w.height()));
-            symrt::log_event(format!("partial close: size {:?} -> {}", size0, p1.size.value));
+            symrt::log_event(format!("partial close: size {} -> {}", size0.map(|v| v.to_string()).unwrap_or_default(), p1.size.value));
         }
         if !liq_first {
             if !r.step(Op::Liquidate { by: LIQ, trader: ALICE, limit: Uint128::zero() }).tx.ok {
